@@ -161,6 +161,10 @@ func splitSubscribeRequest(sctx *subContext, req *gnmi.SubscribeRequest) error {
 	// based on the target specified in each path using the original request as a template.
 	for _, sub := range subs.Subscription {
 		target := sub.GetPath().GetTarget()
+		if target == "" {
+			// An entry that names no target can be forwarded nowhere: refuse the request rather than drop the entry
+			return errors.NewInvalid("Prefix or every path must specify a target")
+		}
 		var tr *gnmi.SubscribeRequest
 		if target != "" {
 			ok := false
